@@ -410,7 +410,17 @@ func driveShard(ctx *context, rs runSpec, bin string, ag *aggregate, shard, nsha
 			ag.mu.Unlock()
 		}
 		crashes++
-		if ctx.replay != nil || crashes > 40 {
+		limit := 4 // quick: a tree that crashes or hangs this often is broken, do not spend the budget on it
+		if ctx.tier == "thorough" {
+			limit = 40
+		}
+		if ctx.replay != nil || crashes >= limit {
+			if ctx.replay == nil {
+				ag.mu.Lock()
+				ag.inconWhat = append(ag.inconWhat, fmt.Sprintf("%s shard %d: stopped after %d fatal cases; the remaining cases of this shard were not run", rs.name, shard, crashes))
+				ag.inconclusive++
+				ag.mu.Unlock()
+			}
 			return
 		}
 		from = last + 1
